@@ -305,15 +305,28 @@ def run_one(prop, batch, env, timeout, workdir, idx):
              str(outf)],
             env=env, cwd=str(VERIF), stdout=lf, stderr=subprocess.STDOUT,
             start_new_session=True)
-        try:
-            rc = p.wait(timeout=timeout)
-        except subprocess.TimeoutExpired:
-            rc = 'timeout'
+        # Watchdog in load-scaled time: while the machine is oversubscribed
+        # (load average above the number of cores) the budget is consumed
+        # proportionally slower; a hard wall-clock limit of four times the
+        # budget remains.  Its firing is 'inconclusive', never a verdict.
+        used, rc = 0.0, None
+        ncpu = os.cpu_count() or 1
+        while rc is None:
             try:
-                os.killpg(p.pid, signal.SIGKILL)
-            except OSError:
-                pass
-            p.wait()
+                rc = p.wait(timeout=5)
+            except subprocess.TimeoutExpired:
+                try:
+                    over = max(1.0, os.getloadavg()[0]/ncpu)
+                except OSError:
+                    over = 1.0
+                used += 5.0/over
+                if used > timeout or time.time() - t0 > 4*timeout:
+                    rc = 'timeout'
+                    try:
+                        os.killpg(p.pid, signal.SIGKILL)
+                    except OSError:
+                        pass
+                    p.wait()
     dt = time.time() - t0
     if outf.exists():
         try:
